@@ -818,6 +818,17 @@ def gen_c10(rng, tier):
                 ops += ["P:c1:3.12:%s:-" % sc.num(b)]
             ops += ["W", "E:c0", "E:c1"]
         mk(cases, "atbound", ops)
+    # somebody else's "ev": false (with or without a subscription of its own) does not end anybody's subscription
+    for third in (False, True):
+        for pre in ([], ["P:c1:2.9:-:1"]):
+            ops = ["N:p", "S:p:c0:ok", "N:c0", "V:c0:c0:ok", "N:c1", "V:c1:c0:ok", "N:c2", "V:c2:c0:ok", "P:c0:2.9:-:1"] + pre + ["P:c1:2.9:-:0",
+                   ("P:c2:2.9:true:-" if third else "L:2.9:true"), "W", "E:c0", "E:c1", "E:c2", "P:c1:3.12:-:0", "L:3.12:%s" % sc.num(25), "W", "E:c0", "E:c1"]
+            mk(cases, "unsub-by-other", ops)
+    # the application takes a written value back from inside its remote-update callback (two changes: both are notified)
+    for i in range(2 if tier == "quick" else 10):
+        ops = ["N:p", "S:p:c0:ok", "N:c0", "V:c0:c0:ok", "N:c1", "V:c1:c0:ok", "P:c0:2.9:-:1", "P:c1:2.9:-:1", "TB:2.9",
+               "P:c0:2.9:true:-", "W", "E:c0", "E:c1", "G:c1:2.9", "P:c1:2.9:true:-", "W", "E:c0", "E:c1", "P:c0:2.9:false:-", "W", "E:c0", "E:c1"]
+        mk(cases, "take-back", ops)
     # the application changes a value thousands of times while the subscriber keeps sending requests (an event may be due at
     # any moment of the server's request handling)
     for i in range(2 if tier == "quick" else 10):
@@ -848,6 +859,7 @@ def oracle_c10(c, obs):
     rows = sc.rows_for(c["line"])
     cur = {k: sc.canon_model_val(v["value"]) for k, v in rows.items()}
     subs, pending, alive = {}, {}, set()
+    takeback = set()
     pairs, ok = pair_tokens(c["line"], obs)
     ops = [o for o in c["line"].split(" ")[1:] if not (o.startswith("tbl=") or o.startswith("nacc=") or o.startswith("pin=") or o.startswith("fsz="))]
     it = iter(pairs)
@@ -888,10 +900,14 @@ def oracle_c10(c, obs):
             pending.pop(p[1], None)
         elif p[0] == "L":
             change(p[1], ":".join(p[2:]), None)
+        elif p[0] == "TB":
+            takeback.add(p[1])
         elif p[0] == "P":
             cid, ev, val = p[2], p[-1], ":".join(p[3:-1])
             if val != "-":
                 change(cid, val, p[1])
+                if cid in takeback and val == "true":
+                    change(cid, "false", None)       # the application's callback takes it back: a second change, by the application
             if ev != "-" and "e" in rows[cid]["perms"]:
                 if ev == "1":
                     subs.setdefault(p[1], set()).add(cid)
